@@ -961,12 +961,18 @@ func drawCase(t *rapid.T) Case {
 		o.Coord = gen.AnyCoord()
 	}
 	var g orb.Geometry
-	pow2, boundClass := false, false
+	pow2, boundClass, large := false, false, false
 	switch shape := rapid.IntRange(0, 39).Draw(t, "shape"); {
 	case shape == 39:
 		g = nil
 	case shape == 38:
 		g = typedNilOf(rapid.IntRange(0, 6).Draw(t, "nilkind"))
+	case shape == 37 && rapid.IntRange(0, 3).Draw(t, "largeclass") == 0:
+		// rare "large" class: one vertex list or member count around 512 / 1024 / 2048 / 4096 (L-2..L+3), lite matrix
+		l := rapid.SampledFrom([]int{512, 1024, 2048, 4096}).Draw(t, "L") + rapid.IntRange(-2, 3).Draw(t, "dL")
+		dim := rapid.SampledFrom([]int{0, 1, 2, 3, 4, 5, 6, 7, 8, 9}).Draw(t, "largedim")
+		g, _ = buildLarge(LargeCase{Dim: largeDims[dim].name, N: l, Pos: rapid.IntRange(0, 2).Draw(t, "pos")})
+		large = true
 	case shape >= 36:
 		// length class "around a power of two": a vertex list of 2^k-1 .. 2^k+1 points (k = 4..9) in one
 		// of the ten positions of the length enumeration, at top level or inside a collection with followers.
@@ -1006,6 +1012,10 @@ func drawCase(t *rapid.T) Case {
 	}
 	if boundClass {
 		stats.Class("bound class:members with degenerate bounds in a multi-geometry / collection")
+	}
+	if large {
+		stats.Class("large class:a vertex list or member count of L-2..L+3, L in {512,1024,2048,4096}")
+		c.Lite = true
 	}
 	switch rapid.IntRange(0, 3).Draw(t, "sridclass") {
 	case 0:
@@ -1698,6 +1708,50 @@ func TestReplay(t *testing.T) {
 			t.Fatalf("witness still fails: %v", err)
 		}
 		return
+	}
+	switch test {
+	case "TestEnumLarge":
+		var lc LargeCase
+		if err := json.Unmarshal(raw, &lc); err != nil {
+			t.Fatal(err)
+		}
+		if err := stats.Guard(func() error { return checkLarge(lc) }); err != nil {
+			t.Fatalf("replayed case still fails: %v", err)
+		}
+		return
+	case "TestEnumAliasedInputs":
+		var ac AliasedCase
+		if err := json.Unmarshal(raw, &ac); err != nil {
+			t.Fatal(err)
+		}
+		if err := stats.Guard(func() error { return checkAliased(ac) }); err != nil {
+			t.Fatalf("replayed case still fails: %v", err)
+		}
+		return
+	case "TestPropHistoryScanner", "TestPropHistoryEncoder":
+		var sc SeqCase
+		if err := json.Unmarshal(raw, &sc); err != nil {
+			t.Fatal(err)
+		}
+		f := checkScannerHistory
+		if test == "TestPropHistoryEncoder" {
+			f = checkEncoderHistory
+		}
+		if err := stats.Guard(func() error { return f(sc) }); err != nil {
+			t.Fatalf("replayed history still fails: %v", err)
+		}
+		return
+	case "TestPropReadOnlyArgs":
+		var c Case
+		if err := json.Unmarshal(raw, &c); err != nil {
+			t.Fatal(err)
+		}
+		if err := stats.Guard(func() error { return checkReadOnlyArgs(c) }); err != nil {
+			t.Fatalf("replayed case still fails: %v", err)
+		}
+		return
+	case "TestEnumDynamicTypes":
+		t.Skip("TestEnumDynamicTypes is a fixed enumeration: re-run ./check C01 quick")
 	}
 	if test == "TestPropConcurrent" {
 		var cs []Case
